@@ -312,3 +312,15 @@ func IteInt(c bool, a, b int) int {
 func ObserveGlobal(group, digest string) {
 	events = append(events, Event{Kind: "observe", Label: "global:" + group, Detail: digest})
 }
+
+// Failed reports, natively, whether an assertion of this run has failed (a
+// harness uses it to stop before handing a malformed value to code that cannot
+// survive it); under the executor a failed concrete assertion ends the path.
+func Failed() bool {
+	for _, e := range events {
+		if e.Kind == "assert-fail" {
+			return true
+		}
+	}
+	return false
+}
